@@ -113,7 +113,7 @@ def make_case(slot, rnd, variant, boundary=None, lay=L48):
     ov = [[(pc + i) % 65536, b] for i, b in enumerate(ins)]
     inv = rnd.choice((-1, simdrv.r8(rnd)))
     return {'key': '%s/%d' % (name, variant), 'r': regs, 'ov': ov, 'inv': inv, 'frame': lay['frame'], 'ia': lay['ia'],
-            'm128': lay['m128'], 'odd': lay['odd']}
+            'm128': lay['m128'], 'odd': lay['odd'], 'page': lay['page'], 'rom': lay['rom']}
 
 
 def gen_and_run(args):
@@ -197,3 +197,25 @@ def delay_table(impl_name, frame, contended_pc):
     """Observe the wait-state table through the implementation: run a NOP at a contended PC at every t."""
     im = [x for x in simdrv.impls() if x.name == impl_name][0]
     return _observe(im, frame, contended_pc)
+
+
+def rerun(rp):
+    """A recorded case (opcode bytes, registers, port value, machine layout) stepped again on py / pycm / ccm of the current tree."""
+    cbuild.preload()
+    c = {k: rp[k] for k in ('key', 'r', 'ov', 'inv', 'frame', 'ia', 'm128', 'odd')}
+    order = {'py': 0, 'pycm': 1, 'ccm': 2}
+    if c['m128']:
+        if 'page' in rp:
+            page, rom = rp['page'], rp['rom']
+        else:
+            # older files: the layout index is part of the variant number in the key (2000 + 100 * layout + v, 3000 + ...)
+            lay = LAYOUTS128[(int(rp['key'].split('/')[1]) % 1000) // 100]
+            page, rom = lay['page'], lay['rom']
+        c['page'], c['rom'] = page, rom
+        ims = [im for im in simdrv.impls128(page, rom) if im.name in order]
+    else:
+        c['page'], c['rom'] = rp.get('page', 0), rp.get('rom', 0)
+        ims = [im for im in simdrv.impls() if im.name in order]
+    ims.sort(key=lambda im: order[im.name])
+    c['obs'] = [im.run_case(c) for im in ims]
+    return c
